@@ -19,8 +19,9 @@ use crate::rng::Rng;
 use crate::stream::{ctx_from_case, run_stream, CaseCtx, StreamCfg};
 use crate::val::Op;
 
-pub const RELATIONS: [&str; 9] = [
+pub const RELATIONS: [&str; 10] = [
     "add-filter",
+    "add-count-filter",
     "raise-recurse-depth",
     "make-optional",
     "param-edge-as-filter",
@@ -190,6 +191,35 @@ pub fn make_pair(relation: &'static str, case: &Case, rng: &mut Rng) -> Option<P
             let (path, _) = rng.pick(&scopes).clone();
             let all: Vec<Op> = crate::val::ALL_OPS.to_vec();
             let (t1, ..) = with_extra_filter(case, &path, rng, &all)?;
+            Some(Pair { relation, base: case.clone(), t1, t2: None, expect: Expect::Subset })
+        }
+        "add-count-filter" => {
+            // a fold whose origin is in the root component: its count filters are evaluated in the root
+            // component, so adding one (any comparison, any bound - "count >= 0" keeps every row) can only
+            // remove whole rows and must leave every remaining row untouched, nested fold outputs included
+            let mut sites = vec![];
+            for (path, _) in &scopes {
+                let s = scope_ref(&case.query.root, path);
+                for (i, sel) in s.sels.iter().enumerate() {
+                    if let Sel::Edge(e) = sel {
+                        if matches!(e.kind, EKind::Fold(_)) {
+                            sites.push((path.clone(), i));
+                        }
+                    }
+                }
+            }
+            let (path, i) = rng.pick_opt(&sites)?.clone();
+            let mut t1 = case.clone();
+            let var = fresh_var(case, "cf");
+            let op = *rng.pick(&[Op::Ge, Op::Ge, Op::Gt, Op::Gt, Op::Le, Op::Lt, Op::Ne, Op::Eq]);
+            if let Sel::Edge(e) = &mut scope_mut(&mut t1.query.root, &path).sels[i] {
+                if let EKind::Fold(c) = &mut e.kind {
+                    let spec = c.get_or_insert_with(|| crate::qast::CountSpec { outputs: vec![], tags: vec![], filters: vec![] });
+                    spec.filters.push(QFilter { op, rhs: Some(Rhs::Var(var.clone())) });
+                }
+            }
+            let bound = *rng.pick(&[-1i64, 0, 0, 1, 1, 2, 3]);
+            t1.args.insert(var, if rng.chance(50) || bound < 0 { FieldValue::Int64(bound) } else { FieldValue::Uint64(bound as u64) });
             Some(Pair { relation, base: case.clone(), t1, t2: None, expect: Expect::Subset })
         }
         "raise-recurse-depth" => {
